@@ -80,6 +80,10 @@ EXPLANATION += (
     ' Round 13: no reader of the marker cache uses a position dataset as a fancy index without an integer type (R-ROLE/positions-as-stored).'
 )
 
+EXPLANATION += (
+    ' Round 14: the bootstrap sample size is floored only as far as a guard on the number of markers allows (R-CAP/sample-within-population, rule of C02).'
+)
+
 RULE_TEXT = (
     "one obligation per value-identity / provenance / dominance relation "
     "named above; non-trivial when both ends of the relation exist")
@@ -133,6 +137,11 @@ def check(ctx):
     if n_ro < 4:
         raise AnalysisError(f'only {n_ro} record parameters found among '
                             'the output writers')
+    # the candidates a cell is compared with under a parent are the leaves
+    # below that very node, level and label (rule of C02): a candidate from
+    # another branch gives an assignment that is not a path of the tree
+    from .C02 import check_leaves_under_parent
+    check_leaves_under_parent(ctx)
 
 
 def _node_of(cfg, rd, astn):
